@@ -5,12 +5,25 @@ V = os.path.dirname(os.path.dirname(os.path.abspath(__file__)))
 props = [json.loads(l) for l in open(os.path.join(V, "properties.jsonl"))]
 
 CLAIMED = {
- "C01": ("operator tables regenerated from Interpreter::binary/unary/equals/is_truthy proved equal to the declarative reference tables; evaluation order, short-circuit, division-by-zero and output-only-grows theorems on the evaluator model; the model and the reference semantics are both run against the implementation on exhaustive operator x kind pairs and random traced expression trees", "3.1"),
- "C03": ("theorems on the reference semantics (argument order, lookup and arity before the body, fresh scope, caller frame restored, RETURN propagation, by-value binding) carried to the implementation model by the refinement theorem; both models run against the implementation on random procedure programs", "3.3"),
- "C07": ("scanner model proved sound and complete for the relational lexical grammar, failing exactly on the five lexical error classes, with exact spans and literals, for all strings; regenerated tables proved equal to the reference tables; model compared with Lexer::scan on exhaustive short strings and random/mutated texts", "3.7"),
- "C08": ("scanner and parser models proved total (no panic site reachable on scanner output, linear fuel never exhausted, a tree or a non-empty diagnostic list, recovery consumes input) for all inputs; models compared with the implementation on exhaustive token sequences and mutated programs; rendering and native stack only exercised", "3.8"),
- "C09": ("parser model proved to accept no program with RETURN outside a procedure or BREAK/CONTINUE outside a loop of the same body, and to reject with at least one diagnostic; acceptance of the documented grammar and the other rejection classes decided by correspondence of the parser model with the implementation on generated derivations and rejection classes (partial: no round-trip theorem yet)", "3.9"),
- "C17": ("grid-world invariants (inside the grid, never on a wall, rotations, one-cell moves, CAN_MOVE iff, checkpoints in order, malformed grids) proved for all grids and all command histories on the robot model; model compared with the implementation on random grids and walks; independent Python grid world as direct oracle", "3.17"),
+ "C01": ("the operator tables regenerated from Interpreter::binary/unary/equals/is_truthy are proved equal to the declarative reference tables; evaluation order, short-circuit, division-by-zero and output-only-grows theorems on the evaluator model; model and reference semantics both run against the implementation on exhaustive operator x kind pairs and random traced expression trees", "3"),
+ "C02": ("refinement theorem: the evaluator model with flags, return slot and copied block scopes has the same observable behaviour as the signal-passing reference semantics for every program, fuel and start state; sanity theorems show the reference semantics means what the statement says; both run against the implementation on random control skeletons", "3"),
+ "C03": ("theorems on the reference semantics (argument order, lookup and arity before the body, fresh scope, caller frame restored, RETURN propagation, by-value binding) carried to the implementation model by the refinement theorem; both models run against the implementation on random procedure programs", "3"),
+ "C04": ("index arithmetic, bounds-checked reads/writes, APPEND/INSERT/REMOVE/LENGTH as sequence operations, fresh cells for + and literals, frame theorems (no other cell, variable or output changes) on the heap model; histories over aliased lists run against the implementation", "3"),
+ "C05": ("the expression ladder regenerated from parser.rs is proved to be the documented one (table theorems); the behavioural statement is decided by running the minimal and the full parenthesisation of every tree with <= 2 operators (sampled at 3) on the implementation and the model (partial: no parse-print round-trip theorem)", "3.1"),
+ "C06": ("keyword table has both spellings, implicit-terminator set is the reference one, trivia/newline/semicolon laws proved on the lexical grammar that the scanner is proved equivalent to (C07); behaviour under re-rendering decided by correspondence on re-rendered running programs (partial: no composite render theorem)", "3.1"),
+ "C07": ("scanner model proved sound and complete for the relational lexical grammar, failing exactly on the five lexical error classes, with exact spans and literals, for all strings; regenerated tables proved equal to the reference tables; model compared with Lexer::scan on exhaustive short strings and random/mutated texts", "3"),
+ "C08": ("scanner and parser models proved total (no panic site reachable on scanner output, linear fuel never exhausted, a tree or a non-empty diagnostic list, recovery consumes input) for all inputs; models compared with the implementation on exhaustive token sequences and mutated programs; rendering and native stack only exercised (partial)", "3.1"),
+ "C09": ("parser model proved to accept no program with RETURN outside a procedure or BREAK/CONTINUE outside a loop of the same body, and to reject with at least one diagnostic; acceptance of the documented grammar and the other rejection classes decided by correspondence on generated derivations and rejection classes (partial)", "3.1"),
+ "C10": ("no panic site of the evaluator / library model is reachable from any program the parser accepts, for every fuel (through the reference semantics and the refinement theorem); every library procedure of the regenerated signature table is total; type-chaos correspondence against the implementation", "3"),
+ "C11": ("every syntactic label, every range stored in a syntax tree and every runtime label is a token range or a gap between two tokens, hence inside the source on character boundaries (composed with the scanner's span theorem); exact label ranges compared with the implementation; 'inside the failing construct' decided by correspondence with recorded construct positions", "3"),
+ "C12": ("theorems on the driver model (status 0 iff completed, --check pure, debug mode irrelevant for stdout/status, front-end errors, mode equivalence, determinism); the real binary compared with the model over configurations (partial: clap, exit codes, buffering only observed)", "3.1"),
+ "C13": ("IMPORT of library modules exposes exactly the module's procedures / the named ones, unknown names and modules are diagnostics, the importer's variables and pending state are untouched; regenerated registry is the reference; user-module scenarios run against the implementation (F21 known)", "3"),
+ "C14": ("each STRING procedure's model proved to be the corresponding list-theoretic operation (JOIN(SPLIT) = id, CONTAINS/STARTS/ENDS, REPLACE, SUBSTRING, TRIM, positions consistent); models compared with the implementation and with Python str on exhaustive small strings (Unicode tables finite)", "3"),
+ "C15": ("the regenerated MATH table is the documented one; rounding functions integral; printer output inside the rounding interval; RANDOM in range for every draw; libm and the sampler are oracles (partial); number text compared with the implementation and an independent Python reference on thousands of doubles", "3.1"),
+ "C16": ("association-list map model refines the finite map under the key equality (insert/get laws, no duplicates, frame over cells, non-map argument is an error); histories compared with the implementation and a Python ideal map keyed by the language's == (F18b known, with a checked witness theorem)", "3"),
+ "C17": ("grid-world invariants (inside the grid, never on a wall, rotations, one-cell moves, CAN_MOVE iff, checkpoints in order, malformed grids) proved for all grids and all command histories on the robot model; model compared with the implementation on random grids and walks; independent Python grid world as direct oracle", "3"),
+ "C18": ("finite theorem over the regenerated inventory of every output statement in src/ (no direct write outside the front end and the channel); dynamically every library procedure runs with the channel captured and zero bytes may reach the real stdout/stderr (partial: wasm build not compilable here)", "3.1"),
+ "C19": ("file-system model laws (frame, failure by value, create only if absent, write requires existing, read returns contents) proved; histories compared with the implementation, the real directory tree and a Python tree (partial: host FS behaviour)", "3.1"),
 }
 PENDING_REASON = "check under construction in this session (model, theorems or generator not committed yet); not claimed until its check passes on the unchanged tree"
 
